@@ -82,9 +82,17 @@ PushKey(k) == /\ chain' = ChainPushKey(chain, k)
 PushIndex(i) == /\ chain' = ChainPushIdx(chain, i)
                 /\ path'  = Append(path, IdxStep(i))
 
-Next == /\ Len(path) < MaxLen
-        /\ \/ \E k \in Keys : PushKey(k)
-           \/ \E i \in Idxs : PushIndex(i)
+\* Locations live on the call stack of the deserializer: a callee pushes a step onto the location it was given, and when it
+\* returns the caller goes on with ITS location, which is the same object as before (the structure is persistent: a push allocates
+\* a new head and never touches the chain behind it).  Return is that step; after it a different step may be pushed (a sibling).
+Return == /\ Len(path) > 0
+          /\ chain' = chain.prev
+          /\ path'  = SubSeq(path, 1, Len(path) - 1)
+
+Next == \/ /\ Len(path) < MaxLen
+           /\ \/ \E k \in Keys : PushKey(k)
+              \/ \E i \in Idxs : PushIndex(i)
+        \/ Return
 
 Spec == Init /\ [][Next]_pvars
 
@@ -94,6 +102,11 @@ Refines ==
     /\ IsOrigin(chain) = (path = <<>>)          \* origin iff nothing was pushed
     /\ FirstField(chain) = AbsFirst(path)       \* first key step, ignoring indices
     /\ LastField(chain)  = AbsLast(path)        \* last key step, ignoring indices
+
+\* persistence, as an action property: a push keeps the old chain, untouched, as `prev` of the new head and the old path as a
+\* prefix of the new one; a return hands back exactly that `prev` and that prefix
+Persistent == [][\/ (Len(path') = Len(path) + 1 /\ chain'.prev = chain /\ SubSeq(path', 1, Len(path)) = path)
+                 \/ (Len(path') + 1 = Len(path) /\ chain.prev = chain' /\ SubSeq(path, 1, Len(path')) = path')]_pvars
 
 TypeOK == /\ \A j \in 1..Len(path) : path[j].t \in {"key", "idx"}
           /\ Len(path) <= MaxLen
